@@ -373,6 +373,31 @@ def histories(draw):
     return {"models": models, "steps": steps}
 
 
+def enum_ratio_boundaries(tier, seed):
+    """Flat models with n features of which k are abstract and k occur in constraints, for every (k, n) whose
+    quotient lies within 0.02 units of a rounding tie at the documented precision (2 decimals for 'features in
+    constraints', 4 for the other ratios) - the only place where an intermediate rounding can show."""
+    limit = 320 if tier == "thorough" else 160
+    pairs = []
+    for n in range(2, limit):
+        for k in range(1, n):
+            for prec in (2, 4):
+                x = k / n * 10 ** prec
+                frac = x - int(x)
+                if abs(frac - 0.5) <= 0.02 and frac != 0.5:
+                    pairs.append((k, n, prec))
+    if tier != "thorough":
+        pairs = pairs[int(seed) % 4::4]
+    out = []
+    for k, n, prec in pairs:
+        kids = [build.feat(f"F{i}", abstract=(i < k)) for i in range(1, n)]
+        root = build.feat("F0", [build.rel(0, 1, [c]) for c in kids], abstract=(k == n))
+        ctcs = [{"name": f"C{i}", "ast": ["T", f"F{i}"]} for i in range(1, k + 1)]
+        # k features in constraints (F1..Fk); k abstract features (F1..Fk) of n
+        out.append({"models": [{"root": root, "ctcs": ctcs}], "steps": [{"model": 0, "filter": None, "shared": False}]})
+    return out
+
+
 def nontrivial(case):
     if sum(1 for s in case["steps"] if s["shared"]) >= 2:
         return True
@@ -405,6 +430,8 @@ def classes(case):
 
 
 SUBS = [
+    Sub("ratio-boundaries", check, enum=enum_ratio_boundaries, nontrivial=lambda case: True,
+        classes=lambda case: {"ratio-boundary"}),
     Sub("histories", check, gen=lambda tier: histories(), nontrivial=nontrivial, classes=classes,
         n={"quick": 800, "thorough": 6000},
         essential=["mixed-decomposition", "no-ctcs", "root-only", "shared-object-reused", "filtered"]),
